@@ -1,6 +1,6 @@
 //go:build verif
 
-package stage
+package client
 
 import (
 	"testing"
